@@ -6,7 +6,7 @@ from vlib import Infra
 T_CFG = """SPECIFICATION Spec
 CONSTANTS
   TraceFile = "trace.ndjson"
-  Fuel = 400
+  Fuel = %d
   DecSep = 46
   Plan = %s
 INVARIANTS Report
@@ -32,7 +32,7 @@ def parse_exp(out):
     return res
 
 
-def validate(records, procs=14, timeout=1800, plan=False):
+def validate(records, procs=14, timeout=1800, plan=False, fuel=400):
     """records: prog/obs events. Returns (bad indices, {idx: (sig, expected text)}, stats, n_unspec)"""
     from concurrent.futures import ThreadPoolExecutor
     import tempfile, shutil, time
@@ -46,7 +46,7 @@ def validate(records, procs=14, timeout=1800, plan=False):
         off, recs = ch
         wd = tempfile.mkdtemp(prefix="sem.", dir=vlib.scratch())
         vlib.write_ndjson(os.path.join(wd, "trace.ndjson"), recs)
-        r = vlib.tlc("DDPRunTrace", "t.cfg", ["sem", "common", "syntax"], workdir=wd, workers=1, timeout=timeout, files={"t.cfg": T_CFG % ("TRUE" if plan else "FALSE")}, gcthreads=2, heap="3g")
+        r = vlib.tlc("DDPRunTrace", "t.cfg", ["sem", "common", "syntax"], workdir=wd, workers=1, timeout=timeout, files={"t.cfg": T_CFG % (fuel, "TRUE" if plan else "FALSE")}, gcthreads=2, heap="3g")
         return off, len(recs), r
     t0 = time.time()
     with ThreadPoolExecutor(max_workers=procs) as ex:
